@@ -35,6 +35,15 @@ var vpC02Cases = []vpC02Case{
 	{"Object.NameMap-text", func(s string) (Item, []string, []string) {
 		return &Object{ID: "https://h.ex/i", Type: NoteType, Name: NaturalLanguageValues{{Ref: "en", Value: Content(s)}, {Ref: "fr", Value: Content("x")}}}, []string{"nameMap", "en"}, []string{"id", "type", "nameMap"}
 	}},
+	{"Object.NameMap-tag", func(s string) (Item, []string, []string) {
+		return &Object{ID: "https://h.ex/i", Type: NoteType, Name: NaturalLanguageValues{{Ref: LangRef(s), Value: Content("one")}, {Ref: "fr", Value: Content("un")}}}, []string{"nameMap", "\x00tag"}, []string{"id", "type", "nameMap"}
+	}},
+	{"Object.SourceContentMap-tag", func(s string) (Item, []string, []string) {
+		return &Object{ID: "https://h.ex/i", Type: NoteType, Source: Source{MediaType: "text/x", Content: NaturalLanguageValues{{Ref: "en", Value: Content("one")}, {Ref: LangRef(s), Value: Content("un")}}}}, []string{"source", "contentMap", "\x00tag"}, []string{"id", "type", "source"}
+	}},
+	{"Link.NameMap-tag", func(s string) (Item, []string, []string) {
+		return &Link{Type: MentionType, Href: "https://h.ex/l", Name: NaturalLanguageValues{{Ref: LangRef(s), Value: Content("one")}, {Ref: "fr", Value: Content("un")}}}, []string{"nameMap", "\x00tag"}, []string{"type", "href", "nameMap"}
+	}},
 	{"Object.AttributedTo-IRI", func(s string) (Item, []string, []string) {
 		return &Object{ID: "https://h.ex/i", Type: NoteType, AttributedTo: IRI("https://h.ex/" + s)}, []string{"attributedTo"}, []string{"id", "type", "attributedTo"}
 	}},
@@ -85,7 +94,15 @@ var vpC02Prefixes = map[string]string{
 }
 
 func vpC02Walk(v *vpJ, path []string) *vpJ {
+	return vpC02WalkTag(v, path, "")
+}
+
+// vpC02WalkTag: the path element "\x00tag" stands for the member whose name is the hostile string.
+func vpC02WalkTag(v *vpJ, path []string, tag string) *vpJ {
 	for _, p := range path {
+		if p == "\x00tag" {
+			p = tag
+		}
 		if v == nil {
 			return nil
 		}
@@ -149,7 +166,15 @@ func vpC02Hostile(ci, n int) {
 	for _, got := range doc.memberNames() {
 		vpAssert("no-injected-member/"+c.name, vpHasName(names, got))
 	}
-	if n > 0 {
+	isTag := len(path) > 0 && path[len(path)-1] == "\x00tag"
+	if isTag && n > 0 && utf8.Valid(raw) && s != "-" && s != "fr" && s != "en" {
+		// the hostile string is a language tag: it must come back as the name of a member whose value is intact
+		m := vpC02WalkTag(doc, path, s)
+		vpAssert("tag-member-present/"+c.name, m != nil)
+		if m != nil {
+			vpAssert("tag-member-value/"+c.name, m.kind == 's' && (string(m.str) == "one" || string(m.str) == "un"))
+		}
+	} else if n > 0 && !isTag {
 		m := vpC02Walk(doc, path)
 		vpAssert("member-present/"+c.name, m != nil)
 		if m != nil {
